@@ -364,6 +364,14 @@ func GenTopLevel(r *RNG, depth int) (stmts []string, globals []string, feat map[
 			g.trace()
 		}
 	}
+	// functions declared after statements that allocated top-level locals; their outermost scope redeclares
+	// a variable of another numeric type together with a new one (valid Go: x stays float64)
+	for l := r.Intn(3); l > 0; l-- {
+		k1, k2 := 1+r.Intn(9), 1+2*r.Intn(9)
+		g.w("func late%d(p int) float64 {\n\ta, x := p, %d.5\n\tb, x := %d, %d\n\tif p > 1000 {\n\t\tc, x := 1, 2\n\t\t_ = c\n\t\t_ = x\n\t}\n\treturn x/2 + float64(a-a+b-b)\n}\n", l, k1, k1, k2)
+		g.w("println(\"late\", late%d(%d))\n", l, r.Intn(5))
+		g.f("late-func-redeclare")
+	}
 	g.trace()
 	// split into top-level statements: a statement ends where the brace depth returns to zero
 	depthB := 0
